@@ -567,6 +567,9 @@ func TestVerif_C07(t *testing.T) {
 				ob.CostlyMessages = append(ob.CostlyMessages, vC07B32(uint64(c0)*1000+uint64(seq0)))
 			case "token-extra-slot": // F13e
 				g.sup[o][c0] = true
+				if cr.Bool() { // ... also with a variant of the message that claims one more token transfer
+					vC07AddMsg(ob, c0, seq0, vC07Msg(c0, seq0, 9))
+				}
 				var base []exectypes.TokenData
 				if m, ok := ob.TokenData[c0]; ok {
 					base = append(base, m[seq0].TokenData...)
@@ -598,14 +601,21 @@ func TestVerif_C07(t *testing.T) {
 		for _, o := range g.ids {
 			p2p[o] = vPeer(int(o))
 		}
+		// the home chain holds exactly the chains of fChain (the validation reads fChain from it), with their f
 		for _, c := range append(append([]cciptypes.ChainSelector{}, g.chains...), vC07Dest) {
+			f, known := g.f[c]
 			var peers []libocrtypes.PeerID
 			for _, o := range g.ids {
+				if !known {
+					g.sup[o][c] = false // a chain without configuration has no readers
+				}
 				if g.sup[o][c] {
 					peers = append(peers, vPeer(int(o)))
 				}
 			}
-			hc.SetChain(c, 1, peers)
+			if known {
+				hc.SetChain(c, f, peers)
+			}
 		}
 		p := &Plugin{
 			reportingCfg:    ocr3types.ReportingPluginConfig{OracleID: g.ids[0], F: bigF},
